@@ -3,6 +3,7 @@
 mod c01;
 mod c02;
 mod c03;
+mod c04;
 mod c06;
 mod c08;
 mod c10;
@@ -16,6 +17,7 @@ mod gen;
 mod model;
 mod ops;
 mod report;
+mod sched;
 mod shape;
 mod shrink;
 mod snap;
@@ -83,6 +85,8 @@ fn main() {
         "C01" => c01::run(&ctx, c01::Mode::C01),
         "C02" => c02::run(&ctx),
         "C03" => c03::run(&ctx),
+        "C04" => c04::run(&ctx, "C04"),
+        "C09" => c04::run(&ctx, "C09"),
         "C05" => c01::run(&ctx, c01::Mode::C05),
         "C06" => c06::run(&ctx),
         "C07" => c01::run(&ctx, c01::Mode::C07),
